@@ -5833,6 +5833,15 @@ oid_parsing_done:
             break;
         }
 
+        if (attributeStored && stringType == ASN_BIT_STRING &&
+            (uint32) Strlen(stringOut) != llen - DN_NUM_TERMINATING_NULLS)
+        {
+            /* Stored attributes are handed out and compared as C strings
+               (e.g. the commonName against the expected peer name): no
+               hidden null in these either */
+            psTraceCrypto("Malformed DN attributes 11\n");
+            return PS_PARSE_FAIL;
+        }
         if (attributeStored)
         {
             for (i = 0; i < DN_NUM_ATTRIBUTES_MAX; i++)
